@@ -49,3 +49,17 @@ Theorem C19_square_algebras_positive_unitary_is_the_identity :
     create_vector_outcome al scipy props = CVIdentityWithWarning.
 Proof. exact: square_algebras_positive_unitary_is_identity. Qed.
 Print Assumptions C19_square_algebras_positive_unitary_is_the_identity.
+
+From mathcomp Require Import ssrZ.
+From Coq Require Import ZArith.
+(* non-vacuity of the orthogonalisation step: one earlier vector (1,1,0), draw (2,3,4), solved prefix x = (-3) *)
+Example C19_hypotheses_met :
+  let vs := [:: [:: 1; 1; 0]%Z] in let v := [:: 2; 3; 4]%Z in let x := [:: -3]%Z in
+  [/\ vnth (matvec (ortho_A 1 vs) x) 0 = vnth (ortho_y 1 vs v) 0,
+      ortho_new 1 x v = [:: -3; 3; 4]%Z & dot (nth [::] vs 0) (ortho_new 1 x v) = 0%Z].
+Proof. by vm_compute. Qed.
+Example C19_property_sets :
+  [/\ create_vector_outcome AVtb false [:: PUnitary; PPositive] = CVIdentityWithWarning,
+      create_vector_outcome AHrr false [:: PUnitary; PUnknown] = CVValueError
+    & has PUnknown [:: PUnitary; PUnknown]].
+Proof. by vm_compute. Qed.
